@@ -1541,7 +1541,7 @@ impl Connection {
     async fn router(
         config: HostConnectionConfig,
         stream: impl AsyncRead + AsyncWrite,
-        receiver: mpsc::Receiver<Task>,
+        mut receiver: mpsc::Receiver<Task>,
         error_sender: tokio::sync::oneshot::Sender<ConnectionError>,
         orphan_notification_receiver: mpsc::UnboundedReceiver<RequestId>,
         router_handle: Arc<RouterHandle>,
@@ -1580,7 +1580,7 @@ impl Connection {
         let w = Self::writer(
             BufWriter::with_capacity(8192, write_half),
             &handler_map,
-            receiver,
+            &mut receiver,
             write_coalescing_delay,
         );
         let o = Self::orphaner(&handler_map, orphan_notification_receiver);
@@ -1599,6 +1599,19 @@ impl Connection {
         for (_, handler) in response_handlers {
             // Ignore sending error, request was dropped
             let _ = handler.response_sender.send(Err(error.clone().into()));
+        }
+
+        // Refuse further submissions and fail the requests that were submitted but not
+        // yet picked up by the writer. After `close()`, `recv()` returns `None` only once
+        // every sender that had already reserved a slot has delivered its task, so no
+        // task (and no caller waiting for its response) can be left behind in the channel.
+        receiver.close();
+        while let Some(task) = receiver.recv().await {
+            // Ignore sending error, request was dropped
+            let _ = task
+                .response_handler
+                .response_sender
+                .send(Err(error.clone().into()));
         }
 
         // If someone is listening for connection errors notify them
@@ -1693,7 +1706,7 @@ impl Connection {
     async fn writer(
         mut write_half: impl AsyncWrite + Unpin,
         handler_map: &StdMutex<ResponseHandlerMap>,
-        mut task_receiver: mpsc::Receiver<Task>,
+        task_receiver: &mut mpsc::Receiver<Task>,
         write_coalescing_delay: Option<WriteCoalescingDelay>,
     ) -> Result<(), BrokenConnectionError> {
         // When the Connection object is dropped, the sender half
